@@ -55,6 +55,7 @@ def main():
     ap.add_argument("id")
     ap.add_argument("replay")
     ap.add_argument("--out")
+    ap.add_argument("--match", default="", help="substring the failure message must keep")
     a = ap.parse_args()
     cfg = CHECKS[a.id]
     pkg = cfg.get("pkg", "props")
@@ -82,7 +83,7 @@ def main():
                 continue
             json.dump(cand, open(tmp, "w"))
             r = run(binp, tests, tmp)
-            if r and r.get("fail") and r.get("signature", "") == sig:
+            if r and r.get("fail") and r.get("signature", "") == sig and a.match in r.get("msg", ""):
                 doc = cand
                 changed = True
                 print("removed", p)
